@@ -239,7 +239,7 @@ def _row_stream(row):  # type: ignore[no-untyped-def]
 
 
 @cond(q=30, t=120, stubs=["hashlib := recording ideal sha256", "describe batch := fake column accessors"], encoded=[isp.compute_protocol_hash],
-      bound="protocol names <= %d chars, tails <= 2 bytes" % (_NL + 1), replay=lambda a: _replay_single_edits(a),
+      bound="protocol names <= %d chars, tails <= 2 bytes" % (_NL + 1), replay=lambda a: _replay_header(a),
       signature=lambda a, c: "C39:protocol-hash:header-not-injective")
 def header_is_injective_and_self_delimiting(pa_: str, pb_: str, ta: str, tb: str) -> bool:
     """
@@ -250,6 +250,8 @@ def header_is_injective_and_self_delimiting(pa_: str, pb_: str, ta: str, tb: str
     try:
         ha = _stream_of(_Txt(pa_), [])
         hb = _stream_of(_Txt(pb_), [])
+    except HarnessModelError:
+        raise  # outside the stubs' model: INCONCLUSIVE, never a counterexample
     except Exception:  # noqa: BLE001
         return False
     if ha + ta != hb + tb:
@@ -257,13 +259,19 @@ def header_is_injective_and_self_delimiting(pa_: str, pb_: str, ta: str, tb: str
     return pa_ == pb_ and ta == tb
 
 
-def _replay_single_edits(args: dict) -> str | None:
-    """Real compute_protocol_hash: some single-point edit of a two-row description leaves the hash unchanged?"""
-    base = {"protocol_name": b"P", "rows": [dict(_DEFAULT_ROW), dict(_DEFAULT_ROW, name=b"n", has_header=True, header_schema_ipc=b"\x01h", is_exchange=False)]}
+def _replay_single_edits(base: dict | None = None) -> str | None:
+    """Real compute_protocol_hash on real pyarrow batches: does some single-point edit of ``base`` (protocol name,
+    dropping the last row, any one wire-relevant cell) leave the hash unchanged?  Row *order* is not edited: the
+    batch is documented as sorted by name (build_describe_batch's business, see OUTSIDE), so a hash that
+    canonicalises the order itself is not a breach."""
+    if base is None:
+        base = {"protocol_name": b"P", "rows": [dict(_DEFAULT_ROW), dict(_DEFAULT_ROW, name=b"n", has_header=True, header_schema_ipc=b"\x01h", is_exchange=False)]}
     alts = {"name": [b"x", b""], "method_type": list(_TYPES), "has_return": [True, False], "has_header": [True, False], "is_exchange": [None, True, False],
             "params_schema_ipc": [b"\x00", b"\x01a"], "result_schema_ipc": [b"\x00", b"\x01a"], "header_schema_ipc": [None, b"\x00", b"\x01h"]}
-    cands = [dict(base, protocol_name=b"Q"), dict(base, rows=base["rows"][:1]), dict(base, rows=base["rows"][::-1])]
-    for i in range(2):
+    cands = [dict(base, protocol_name=base["protocol_name"] + b"Q")]
+    if base["rows"]:
+        cands.append(dict(base, rows=base["rows"][:-1]))
+    for i in range(len(base["rows"])):
         for c, vs in alts.items():
             for v in vs:
                 if v != base["rows"][i][c]:
@@ -275,6 +283,41 @@ def _replay_single_edits(args: dict) -> str | None:
         if out["verdict"] == "VIOLATION":
             return out["detail"]
     return None
+
+
+def _replay_header(args: dict) -> str | None:
+    """Real function, real sha256, descriptions built from the solver's witness: protocol names pa_/pb_; a tail is
+    the beginning of the next row (marker + first bytes of its name) and becomes a real row with such a name.
+    VIOLATION only for two *different* real descriptions with the same real hash."""
+    def desc(p: str, tail: str) -> dict:
+        rows = [dict(_DEFAULT_ROW, name=tail[1:].encode("latin-1", "replace") + b"m")] if tail else []
+        return {"protocol_name": p.encode("latin-1", "replace"), "rows": rows}
+
+    try:
+        da, db = desc(args["pa_"], args["ta"]), desc(args["pb_"], args["tb"])
+        if da != db:
+            out = _replay_pair(da, db)
+            if out["verdict"] == "VIOLATION":
+                return out["detail"]
+        for d in (da, db):
+            r = _replay_single_edits(d)
+            if r:
+                return r
+    except (UnicodeError, pa.ArrowException):
+        return None
+    return None
+
+
+def _replay_sequence(args: dict) -> str | None:
+    """Real function on a real describe batch carrying the witness's rows (flags as chosen by the solver): every
+    single-point edit of it must change the real hash."""
+    def row(name: bytes, t: int, r: bool, h: bool, x: int, z: bool) -> dict:
+        return {"name": name, "method_type": _TYPES[t], "has_return": r, "params_schema_ipc": b"\x01p", "result_schema_ipc": b"\x01r",
+                "has_header": h, "header_schema_ipc": None if z else b"\x01h", "is_exchange": None if x == 0 else x == 2}
+
+    ar, ah, ax, az = bool(args["ar"]), bool(args["ah"]), int(args["ax"]), bool(args["az"])
+    rows = [row(b"m", args["at"], ar, ah, ax, az), row(b"n", args["bt"], ar, not ah, (ax + 1) % 3, not az)][: args["n"]]
+    return _replay_single_edits({"protocol_name": b"P", "rows": rows})
 
 
 class _Atom:
@@ -289,6 +332,12 @@ class _Atom:
     def __getattr__(self, name: str):  # type: ignore[no-untyped-def]
         raise HarnessModelError("field value inspected: ." + name)
 
+    def _inspected(self, *a, **k):  # type: ignore[no-untyped-def]
+        raise HarnessModelError("field value inspected through an operator (len / iteration / indexing / arithmetic / ordering)")
+
+    # special methods are looked up on the type, not through __getattr__
+    __len__ = __iter__ = __getitem__ = __add__ = __radd__ = __mul__ = __lt__ = __le__ = __gt__ = __ge__ = __bytes__ = __contains__ = _inspected
+
 
 def _atom_text(label: str) -> _Atom:
     a = _Atom(label)
@@ -298,7 +347,7 @@ def _atom_text(label: str) -> _Atom:
 
 @cond(q=60, t=200, stubs=["hashlib := recording ideal sha256", "describe batch := fake column accessors", "field values := opaque atoms"],
       encoded=[isp.compute_protocol_hash], bound="0..2 rows; first row: every flag combination; second row: type free, other flags derived from the first row; arbitrary (opaque) names and blobs",
-      replay=lambda a: _replay_single_edits(a), signature=lambda a, c: "C39:protocol-hash:stream-shape")
+      replay=lambda a: _replay_sequence(a), signature=lambda a, c: "C39:protocol-hash:stream-shape")
 def hashed_sequence_is_header_then_each_row_in_order(n: int, at: int, ar: bool, ah: bool, ax: int, az: bool, bt: int) -> bool:
     """
     pre: 0 <= n <= 2 and 0 <= at < len(_TYPES) and 0 <= bt < len(_TYPES) and 0 <= ax <= 2
@@ -320,6 +369,8 @@ def hashed_sequence_is_header_then_each_row_in_order(n: int, at: int, ar: bool, 
         for r in rows:
             alone = _raw_chunks(_atom_text("other"), [r])
             want = want + alone[len(hdr0):]
+    except HarnessModelError:
+        raise  # e.g. a column / hashlib attribute / atom attribute outside the model: INCONCLUSIVE, not a counterexample
     except Exception:  # noqa: BLE001
         return False
     # what is hashed for a row depends neither on the protocol name nor on its position or neighbours; rows follow the
@@ -859,6 +910,19 @@ def _decode_model(S, m, enc: _Enc, nrows_max: int) -> dict:
     return desc
 
 
+def _first_difference(da: dict, db: dict) -> str:
+    """Which wire-relevant detail distinguishes the two descriptions (for the finding signature)."""
+    if da["protocol_name"] != db["protocol_name"]:
+        return "protocol_name"
+    if len(da["rows"]) != len(db["rows"]):
+        return "row-count"
+    for ra, rb in zip(da["rows"], db["rows"]):
+        for c in _COLUMNS:
+            if ra[c] != rb[c]:
+                return c
+    return "none"
+
+
 def _replay_pair(da: dict, db: dict) -> dict:
     """Real compute_protocol_hash on real pyarrow batches for both descriptions (names decoded as latin-1 text)."""
     def real(d):  # type: ignore[no-untyped-def]
@@ -871,7 +935,7 @@ def _replay_pair(da: dict, db: dict) -> dict:
     except UnicodeDecodeError:
         return {"verdict": "INCONCLUSIVE", "detail": f"solver witness uses a name that is not valid UTF-8: {da!r} vs {db!r}"}
     if ha == hb and (da["protocol_name"], ra) != (db["protocol_name"], rb):
-        return {"verdict": "VIOLATION", "replayed": True, "signature": "C39:protocol-hash:payload-not-injective",
+        return {"verdict": "VIOLATION", "replayed": True, "signature": "C39:protocol-hash:payload-not-injective:" + _first_difference(da, db),
                 "detail": f"different wire-relevant descriptions share protocol hash {ha[:16]}…: {da!r} vs {db!r}"}
     return {"verdict": "INCONCLUSIVE", "detail": f"solver witness did not reproduce on the real function: {da!r} vs {db!r}"}
 
@@ -958,7 +1022,7 @@ def _concrete_bytes_view(header, rowp, d) -> bytes:
     return _concrete_stream(header, rowp, {"protocol_name": _B(d["protocol_name"]), "rows": rows})
 
 
-@task(q=60, t=300, encoded=[isp.compute_protocol_hash], engine="bv",
+@task(q=150, t=300, encoded=[isp.compute_protocol_hash], engine="bv",
       stubs=["sha256 := ideal hash (the claim is about its input)", "schema blobs := length byte + content (self-delimiting)"],
       bound="header lemma + row lemma (any number of rows by induction): names/protocol name <= %d bytes (no 0x1e/0x1f), blob content <= %d bytes, tails <= %d bytes" % (pick(3, 4), 2, pick(3, 4)))
 def hash_input_is_injective(budget: float, replay=None) -> dict:
@@ -1001,7 +1065,8 @@ def hash_input_is_injective(budget: float, replay=None) -> dict:
     # decided on the real bytecode by hashed_sequence_is_header_then_each_row_in_order).
     rowp_marker(rowp)
     L, C, T = pick(3, 4), 2, pick(3, 4)
-    cap = min(150.0, max(10.0, budget / 3))
+    # per-query solver timeout (wall clock): the row lemma takes ~10 s on a quiet machine, several times that under load
+    cap = min(150.0, max(10.0, budget / 2))
     log = []
     queries = discharged = 0
     solver_s = 0.0
